@@ -26,9 +26,9 @@ PROPS = {
     "C05": dict(
         level="other",
         explanation="Inductive step: RegisterPipeline / RegisterNode / RemoveNode / RemovePipelineAndNodes / IsAnyPipelineRegistered executed symbolically from an arbitrary broker state under the representation invariant (K symbolic node ids, symbolic types/policies/counts, target pipeline + one other pipeline explicit, the rest as ghost counts); spec predicate written independently in the harness; err==nil <=> spec and frame conditions discharged by z3. Plus: all histories of H operations (14 kinds x policy) from 72 API-built pre-states against a reference model written from the statement (H_C05_history_vs_model: return values, registered objects, IsAnyPipelineRegistered, deliveries and closes per node object); pipeline shapes of 1..6 nodes with arbitrary node types through the public API (H_C05_shapes); same-id pipelines of other event types untouched by every mutator.",
-        jobs=[dict(harness=BROKER_H, entries=r"^H_C05_|^H_C07_pipeline_other_type$", params=dict(quick=dict(K=2, L=2, H=2, N=6), thorough=dict(K=3, L=3, H=3, N=6)),
+        jobs=[dict(harness=BROKER_H, entries=r"^H_C05_|^H_C07_pipeline_other_type$", params=dict(quick=dict(K=2, L=2, H=2, N=6, NR=4), thorough=dict(K=3, L=3, H=3, N=6, NR=5)),
                    shards=dict(quick=1, thorough=16, H_C05_RegisterPipeline=16, H_C05_isany_after_history=16, H_C05_history_vs_model=16, H_C07_pipeline_other_type=8))],
-        must_reach=["C05.register.ok", "C05.register.fail", "C05.isany.end", "C05.registernode.fail", "C05.removenode.fail", "C05.rpan.false", "C05.isany.history", "C05.history.end", "C05.shapes.accepted", "C05.shapes.end"],
+        must_reach=["C05.register.ok", "C05.register.fail", "C05.isany.end", "C05.registernode.fail", "C05.removenode.fail", "C05.rpan.false", "C05.isany.history", "C05.history.end", "C05.shapes.accepted", "C05.shapes.end", "C05.repeated.accepted"],
         bounds=dict(quick="K=2 node ids, definition length 0..2, existing pipeline length 2, one other pipeline; any number of pipelines of other types (ghost); histories: 2 operations (12 kinds x policy) from 72 API-built pre-states over ids {f,s,s2} x pipelines {p,q}",
                     thorough="K=3 node ids, definition length 0..3, existing pipeline length 2..3; histories of 3 operations"),
         trusted_base=COMMON_TRUST,
@@ -70,11 +70,11 @@ PROPS = {
         explanation="Sequential parts: Send's lookup/event construction with graph.process replaced by a recording stub; linkNodes for all lengths 0..5; RegisterPipeline builds the list from the currently registered nodes (C05 harness); graph.process/doProcess executed with cooperative scheduling on one schedule for all outcome vectors (order, at-most-once, exact event hand-over). All-schedule reasoning: see EO jobs. Plus node objects shared between pipelines (invoked once per listing pipeline), two overlapping Sends sharing no mutable dispatch state (lockset), and the other-type frame of every registry mutator.",
         jobs=[dict(harness=BROKER_H, entries=r"^H_C01_Send$", params=dict(quick=dict(K=2, L=2), thorough=dict(K=3, L=3)), shards=dict(quick=1, thorough=4),
                    overrides=["(*github.com/hashicorp/eventlogger.graph).process=verifStubProcess"]),
-              dict(harness=BROKER_H, entries=r"^H_C01_linkNodes$|^H_C01_shared_nodes$|^H_C01_two_sends$", params=dict(quick=dict(LL=5), thorough=dict(LL=5))),
+              dict(harness=BROKER_H, entries=r"^H_C01_linkNodes$|^H_C01_shared_nodes$|^H_C01_two_sends$|^H_C05_repeated_ids$", params=dict(quick=dict(LL=5, NR=4), thorough=dict(LL=5, NR=5))),
               # which node objects a registered pipeline traverses: the list RegisterPipeline builds from any registry (inductive step)
               dict(harness=BROKER_H, entries=r"^H_C05_RegisterPipeline$|^H_C07_pipeline_other_type$", params=dict(quick=dict(K=2, L=2), thorough=dict(K=3, L=3)), shards=dict(quick=16, thorough=16, H_C07_pipeline_other_type=8)),
               dict(harness=BROKER_H, entries=r"^H_C01_process_seq$", params=dict(quick=dict(P=2, N=2), thorough=dict(P=3, N=3)), shards=dict(quick=4, thorough=16))],
-        must_reach=["C01.send.known", "C01.send.unknown", "C01.link.ok", "C01.process.end", "C05.register.ok", "C01.shared.end", "C01.two-sends.end"],
+        must_reach=["C01.send.known", "C01.send.unknown", "C01.link.ok", "C01.process.end", "C05.register.ok", "C01.shared.end", "C01.two-sends.end", "C05.repeated.accepted"],
         bounds=dict(quick="P<=2 pipelines x 2 nodes; list length<=5", thorough="P<=3 x 2..3 nodes"),
         trusted_base=COMMON_TRUST,
     ),
@@ -104,8 +104,9 @@ PROPS["C17"] = dict(PROPS["C11"], must_reach=["C17.flushall.ok", "C11.process.ga
 PROPS["C14"] = dict(
     level="other",
     explanation="JSONFormatter / JSONFormatterFilter / Filter / Event.FormattedAs / Event.Format executed symbolically over arbitrary events (symbolic type, time, payload fields, nil or <=2-entry format table) and predicate outcomes; json.Encoder.Encode is an uninterpreted deterministic function of the flattened value (including the struct's field tags), so 'the stored bytes are the encoding of exactly {created_at,event_type,payload}' is a term equality against an independently written reference encoding. Payload present or nil; predicate outcomes true / false / (false, err) / (true, err); encoder failures and hostile text (control characters, quotes, non-UTF-8) are acted out in native replays.",
-    jobs=[dict(harness=BROKER_H, entries=r"^H_C14_", params=dict(quick={}, thorough={}))],
-    must_reach=["C14.unencodable", "C14.forwarded", "C14.filter.end", "C14.table.end", "C14.two.end"],
+    jobs=[dict(harness=BROKER_H, entries=r"^H_C14_(JSONFormatter|Filter|FormattedAs|two_events)$", params=dict(quick={}, thorough={})),
+          dict(harness=BROKER_H, entries=r"^H_C14_formatted_interleaved$", params=dict(quick={}, thorough={}), shards=dict(quick=2, thorough=4), maxswitches=dict(quick=4, thorough=6), instrument_locks=True)],
+    must_reach=["C14.unencodable", "C14.forwarded", "C14.filter.end", "C14.table.end", "C14.two.end", "C14.interleaved.end"],
     bounds=dict(quick="format table nil or <=2 entries", thorough="same"),
     assumptions=["validity / round-trip of the JSON text itself is trusted encoding/json", "concurrent FormattedAs/Format: see C19 (lockset)"],
     trusted_base=COMMON_TRUST,
